@@ -658,7 +658,8 @@ def t_get_next_batch(E):
         q = Obj('AQueue', dict(maxsize=VInt(0)))
         st['q'] = q
         o.fields.update(_queue=q, max_batch_size=E.fresh_int('max_batch_size'), batch_timeout=E.fresh_real('batch_timeout'),
-                        _semaphore=Obj('ASemaphore', dict(value=E.fresh_int('permits'))))
+                        _semaphore=Obj('ASemaphore', dict(value=E.fresh_int('permits'))),
+                        retention_timeout=E.fresh_real('retention_timeout'))
         E.assume(o.fields['max_batch_size'].t >= 1)
         E.assume(o.fields['batch_timeout'].t >= 0)
         arrivals = E.fresh('arrivals', VS)
@@ -931,6 +932,14 @@ def t_call(E):
                         st.setdefault('created', []).append(fo.fields['fut'])
                         return fo
                     return VStub('loop.create_future', cf)
+                if name == 'call_at':
+                    def cat(E_, a, k):
+                        """call_at(when, ...): `when` is an ABSOLUTE loop time, not a delay"""
+                        E.oblige(Qn + '/forget.timer_delay_is_retention_timeout', z3.BoolVal(False), props={'C11', 'C15'},
+                                 detail='call_at(retention_timeout, ...) is due at once: the loop clock is far beyond '
+                                        'any retention value')
+                        raise PathEnd()
+                    return VStub('loop.call_at', cat)
                 if name == 'call_later':
                     def cl(E_, a, k):
                         d, fn_ = a[0], a[1]
@@ -954,6 +963,11 @@ def t_call(E):
                     st.setdefault('enqueued', []).append(a[0])
                     return NONE
                 return VStub('Queue.put_nowait', putn)
+            if obj is st['q'] and name in ('empty', 'qsize'):
+                # what is queued says nothing about THIS request: the collector may have taken it into an open batch
+                if name == 'empty':
+                    return VStub('Queue.empty', lambda E_, a, k: VBool(E.fresh('queue_empty', z3.BoolSort())))
+                return VStub('Queue.qsize', lambda E_, a, k: VInt(E.fresh('qsize', z3.IntSort())))
             if isinstance(obj, Obj) and obj.cls == 'AFuture':
                 fu = obj.fields['fut']
                 if name == 'done':
